@@ -54,7 +54,7 @@ func VerifC13Setup() {
 	}
 }
 
-// Queries evaluated by two workers (thorough: three) with the happens-before race detector on:
+// Queries evaluated by two workers with the happens-before race detector on:
 // under every order in which the workers run (thorough: plus one preemption) no two accesses to
 // the same memory from different goroutines are unordered by synchronisation.
 func VerifC13ParallelQueries() {
@@ -66,7 +66,7 @@ func VerifC13ParallelQueries() {
 	}
 	tx := verifNewTx()
 	tx.Flags.Quiet = true
-	tx.Flags.CPU = verifBound(2, 3)
+	tx.Flags.CPU = 2 // (the thorough tier adds a preemption, not a third worker: 17 queries x 3 workers x 1 preemption does not finish in the 40-minute budget)
 	amp := verifAmplify() // 1 in the engine; the native race-confirmation run repeats the chosen rows
 	if amp > 1 {
 		tx.Flags.CPU = 4
